@@ -1,4 +1,263 @@
-def run_for_property( prop, root=None ):
-    return dict( variants=0, fired=0, silent_ok=0, skipped=0, misses=[] )
+"""Checker self-test (thorough tier): seeded source variants on which a rule must fire (breaking) or stay silent (preserving).
+
+Each variant is an edit of ONE file of the current /repo tree, applied in memory (Model overrides; nothing is written, nothing of the
+repository is executed), re-parsed and byte-compiled with compile() to make sure it is still valid Python; the rules are then re-run on
+the variant tree.  A variant whose anchor text is absent from the tree under test (the tree may itself have been edited) is skipped and
+counted.  A miss - a rule silent on a breaking variant, or a finding / analysis error on a preserving one - is a defect of the CHECKER:
+the thorough run reports it as ANALYSIS-ERROR (exit 2), never as a violation of cpppo.
+"""
+import os, re, sys, time, json, traceback
+from concurrent.futures import ProcessPoolExecutor
+
+from . import core
+from .core import RULES, Ctx, AnalysisError
+
+
+def V( id, file, old, new, fires=(), silent=(), why='' ):
+    """breaking variant when `fires` names the rules that must report; preserving when `silent` names rules that must not"""
+    return dict( id=id, file=file, old=old, new=new, fires=tuple( fires ), silent=tuple( silent ), why=why )
+
+
+LOGIX = 'server/enip/logix.py'; DEVICE = 'server/enip/device.py'; PARSER = 'server/enip/parser.py'; CLIENT = 'server/enip/client.py'
+MAIN = 'server/enip/main.py'; UCMM = 'server/enip/ucmm.py'; AUTO = 'automata.py'; DOT = 'dotdict.py'; MODBUS = 'remote/plc_modbus.py'
+TIMES = 'history/times.py'; HFILES = 'history/files.py'; TNETS = 'server/tnetstrings.py'; TNET = 'server/tnet.py'; GETATTR = 'server/enip/get_attribute.py'
+POLL = 'server/enip/poll.py'; DEFAULTS = 'server/enip/defaults.py'; NETWORK = 'server/network.py'
+
+VARIANTS = [
+    # ---- C05 / C03 / C08 handler rules
+    V( 'status-preset-2107-deleted', LOGIX, "data.status = 0xFF\n data.status_ext= {'size': 1, 'data':[0x2107]}", "pass", fires=[ 'S-STATUS' ] ),
+    V( 'status-2105-2107-swapped', LOGIX, "'data': [ 0x2105 ]}", "'data': [ 0x2107 ]}", fires=[ 'S-STATUS' ] ),
+    V( 'status-success-before-store', LOGIX, "attribute[beg:end] = data[context].data\n data.status = 0x00", "data.status = 0x00\n                attribute[beg:end]	= data[context].data", fires=[ 'S-STATUS' ] ),
+    V( 'status-handler-reraises', LOGIX, '"Implementation error: must specify .status not in (0x00, 0x06) before raising Exception!"\n pass', '"Implementation error: must specify .status not in (0x00, 0x06) before raising Exception!"\n            raise', fires=[ 'S-STATUS' ] ),
+    V( 'ucmm-handler-reraises', UCMM, "data['enip.status']= 0x08 # Service not supported", "data['enip.status']= 0x08\n            raise", fires=[ 'S-STATUS' ] ),
+    V( 'object-status-zero-preset', DEVICE, "data.status = 0x08 # Service not supported, if not recognized or fail to access", "data.status = 0x00", fires=[ 'S-STATUS' ] ),
+    V( 'status-extra-logging', LOGIX, "data.status = 0xFF # On Failure: General Error", "log.debug( 'range check' )\n            data.status		= 0xFF", silent=[ 'S-STATUS', 'D-VALIDATE', 'W-ATTR' ] ),
+    V( 'validate-elm-assert-deleted', LOGIX, 'assert elm <= cnt, \\\n "Attribute %r elements requested invalid: %r" % ( attribute, elm )', 'pass', fires=[ 'D-VALIDATE' ] ),
+    V( 'validate-beg-le-cnt', LOGIX, "assert 0 <= beg < cnt,", "assert 0 <= beg <= cnt,", fires=[ 'D-VALIDATE' ] ),
+    V( 'validate-write-capacity-vs-cnt', LOGIX, "assert endmax <= endactual,", "assert endmax <= cnt,", fires=[ 'D-VALIDATE' ] ),
+    V( 'validate-store-before-reply-elements', LOGIX, "data.status = 0xFF # On Failure: General Error", "if data.service in (self.WR_TAG_RPY, self.WR_FRG_RPY): attribute[0:1] = data[context].data\n            data.status		= 0xFF", fires=[ 'D-VALIDATE', 'S-STATUS' ] ),
+    V( 'validate-key-clip-dropped', DEVICE, "if stride == 1 and start < stop and stop <= len( self ) and key.stop in (stop,None):", "if stride == 1 and 0 <= start < stop <= len( self ):", fires=[ 'D-VALIDATE' ] ),
+    V( 'validate-renamed-locals', LOGIX, "assert elm <= cnt,", "assert elm <= cnt, ", silent=[ 'D-VALIDATE' ] ),
+    V( 'set-attribute-bytecount-dropped', DEVICE, "assert 'set_attribute_single.data' in data and len( data.set_attribute_single.data ) == siz * len( att ), \\", "assert 'set_attribute_single.data' in data, \\", fires=[ 'D-VALIDATE' ] ),
+    V( 'wattr-store-in-read-branch', LOGIX, "recs = attribute[beg:end]", "recs			= attribute[beg:end]\n                attribute[beg]		= recs[0]", fires=[ 'W-ATTR' ] ),
+    V( 'wattr-get-attribute-single-stores', DEVICE, "result += self.attribute[str(a_id)].produce()\n data.get_attribute_single = dotdict()", "result     += self.attribute[str(a_id)].produce()\n                    self.attribute[str(a_id)][0] = 0\n                    data.get_attribute_single = dotdict()", fires=[ 'W-ATTR' ] ),
+    V( 'allowed-lreal-into-real', LOGIX, "DINT.tag_type, UDINT.tag_type,\n REAL.tag_type),", "DINT.tag_type, UDINT.tag_type,\n                                         REAL.tag_type, LREAL.tag_type),", fires=[ 'T-ALLOWED' ] ),
+    V( 'allowed-rows-reordered', LOGIX, "BOOL.tag_type: (BOOL.tag_type,),", "BOOL.tag_type:      (BOOL.tag_type, ),", silent=[ 'T-ALLOWED' ] ),
+    V( 'dtype-from-request', LOGIX, "data[context].type = attribute.parser.tag_type", "data[context].type = data[context].get( 'type', attribute.parser.tag_type )", fires=[ 'D-TYPE' ] ),
+    V( 'snapshot-elementwise-setitem', DEVICE, "self.value[key] = value\n return\n # Setting a single indexed element", "for i,v in zip( range( *key.indices( len( self ))), value ): self.value[i] = v\n            return\n        # Setting a single indexed element", fires=[ 'R-SNAPSHOT' ] ),
+    V( 'typenames-real-int-default', MAIN, '"REAL": ( parser.REAL, 0.0 ),', '"REAL":	( parser.REAL,  0 ),', fires=[ 'T-TYPENAMES' ] ),
+    # ---- C06 / C02 server loop
+    V( 'replybit-twice', LOGIX, "data.service |= 0x80\n try:\n # We need to find the attribute", "data.service           |= 0x80\n        data.service           |= 0x80\n        try:\n            # We need to find the attribute", fires=[ 'P-REPLYBIT' ] ),
+    V( 'replybit-removed-mr', DEVICE, "data.service |= 0x80\n try:\n data.status = 0x16", "try:\n            data.status		= 0x16", fires=[ 'P-REPLYBIT' ] ),
+    V( 'early-return-before-produce', LOGIX, "# Always produce a response payload; if a failure occurred, will contain an error status\n if log.isEnabledFor( logging.DETAIL ):\n log.detail( \"%s Response: Service 0x%02x %s %s\", self,", "if data.status == 0x05:\n            return True\n        if log.isEnabledFor( logging.DETAIL ):\n            log.detail( \"%s Response: Service 0x%02x %s %s\", self,", fires=[ 'P-REPLYBIT' ] ),
+    V( 'process-inside-engine-loop', MAIN, "source.chain( msg )\n else:\n # No input. If we have symbols available, no problem; continue.", "source.chain( msg )\n                                enip_process( addr, data=data, **kwds )\n                            else:\n                                # No input.", fires=[ 'P-ONE' ] ),
+    V( 'second-send', MAIN, "conn.send( rpy )\n except socket.error as exc:", "conn.send( rpy )\n                            conn.send( rpy )\n                        except socket.error as exc:", fires=[ 'P-ONE' ] ),
+    V( 'send-unconditional', MAIN, "if enip_process( addr, data=data, **kwds ):\n # Produce an EtherNet/IP response carrying the encapsulated response data.\n # If no encapsulated data, ensure we also return a non-zero EtherNet/IP\n # status. A non-zero status indicates the end of the session.\n assert 'response.enip' in data, \"Expected EtherNet/IP response; none found\"\n if 'input' not in data.response.enip or not data.response.enip.input:\n log.warning( \"Expected EtherNet/IP response encapsulated message; none found\" )\n assert data.response.enip.status, \"If no/empty response payload, expected non-zero EtherNet/IP status\"\n\n rpy = parser.enip_encode( data.response.enip )\n if log.isEnabledFor( logging.DETAIL ):\n log.detail( \"%s send: %5d: %s %s\"",
+       "proceed = enip_process( addr, data=data, **kwds )\n                    if True:\n                        rpy	= parser.enip_encode( data.response.enip )\n                        if log.isEnabledFor( logging.DETAIL ):\n                            log.detail( \"%s send: %5d: %s %s\"", fires=[ 'P-ONE' ] ),
+    V( 'sender-context-store', LOGIX, "proceed = ucmm.request( data.response, addr=addr )", "data.response.enip.sender_context = dotdict( input=bytearray( 8 ))\n        proceed			= ucmm.request( data.response, addr=addr )", fires=[ 'D-ECHO' ] ),
+    V( 'response-not-copied', LOGIX, "data.response.enip = dotdict( data.request.enip )", "data.response.enip	= data.request.enip", fires=[ 'D-ECHO' ] ),
+    V( 'unregister-proceeds', UCMM, "session or \"(Unknown)\" )\n proceed = False", "session or \"(Unknown)\" )\n                proceed		= True", fires=[ 'D-ECHO' ] ),
+    V( 'rpy-constant-wrong', LOGIX, "RD_FRG_RPY = RD_FRG_REQ | 0x80", "RD_FRG_RPY			= RD_FRG_REQ | 0x08", fires=[ 'X-SERVICES' ] ),
+    V( 'produce-branch-deleted', DEVICE, "elif data.get( 'service' ) == cls.GA_ALL_RPY:", "elif data.get( 'service' ) == 0x7FFF:", fires=[ 'X-SERVICES', 'L-AGREE', 'L-SPEC' ] ),
+    V( 'client-result-without-terminal', CLIENT, "if self.frame.terminal:\n log.info( \"EtherNet/IP %16s:%-5d done: %s -> %10.10s; next byte %3d: %-10.10r: %r\",", "if True:\n            log.info( \"EtherNet/IP   %16s:%-5d done: %s -> %10.10s; next byte %3d: %-10.10r: %r\",", fires=[ 'P-ACT' ] ),
+    V( 'client-engine-not-dropped', CLIENT, "self.addr[0], self.addr[1], str( exc ))\n self.engine = None\n raise", "self.addr[0], self.addr[1], str( exc ))\n            raise", fires=[ 'P-ACT' ] ),
+    # ---- grammar rules
+    V( 'chunk-none-edge-in-header', PARSER, 'ctxt[True] = UDINT( "options", context="options", terminal=True )', 'ctxt[True] 		= UDINT( 	"options",	context="options", terminal=True )\n        ctxt[None]		= state( "early", terminal=True )', fires=[ 'G-CHUNK', 'G-FRAME' ] ),
+    V( 'frame-sender-context-7', PARSER, 'stat[True] = ctxt = octets( "sndr_ctx", context="sender_context",\n repeat=8 )', 'stat[True] = ctxt	= octets(	"sndr_ctx",	context="sender_context",\n                                    repeat=7 )', fires=[ 'G-FRAME' ] ),
+    V( 'frame-payload-repeat-status', PARSER, 'repeat=".length",\n terminal=True )\n\n super( enip_machine, self )', 'repeat=".status",\n                                                terminal=True )\n\n        super( enip_machine, self )', fires=[ 'G-FRAME' ] ),
+    V( 'frame-length-big-endian', PARSER, 'cmnd[True] = leng = UINT( "length", context="length" )', 'cmnd[True] = leng	= UINT_network(	"length",	context="length" )', fires=[ 'G-FRAME' ] ),
+    V( 'ref-wrong-level', PARSER, "ilen[None] = decide( cls.__name__, state=cls( terminal=True, limit='..length' ),", "ilen[None]		= decide( cls.__name__, state=cls( terminal=True, limit='.length' ),", fires=[ 'G-REF' ] ),
+    V( 'ref-count-typo', PARSER, "initial=item, repeat='.count',", "initial=item,	repeat='.counts',", fires=[ 'G-REF' ] ),
+    V( 'bound-cpf-item-limit-dropped', PARSER, "state=cls( terminal=True, limit='..length' ),", "state=cls( terminal=True ),", fires=[ 'G-BOUND' ] ),
+    V( 'bound-epath-size-limit-dropped', PARSER, "limit=None if self.SINGLE else size_init )", "limit=None )", fires=[ 'G-BOUND', 'T-SEGMENTS' ] ),
+    V( 'progress-noop-offsets', DEVICE, "numr[None] = offs = dfa( 'offsets',\n initial=off_, repeat='.multiple.number' )\n # And finally, absorb all remaining data as the request data.\n offs[None] = reqd = octets( 'requests', context='multiple',\n octets_extension=\".request_data\",\n terminal=True )\n reqd[True] = reqd\n reqd[None] = state_multiple_service( 'requests',\n terminal=True )\n return srvc\nMessage_Router.register_service_parser( number=Message_Router.MULTIPLE_REQ",
+       "numr[None]		= offs	= dfa(		'offsets',\n                                                initial=octets_noop( 'nothing', terminal=True ),	repeat='.multiple.number' )\n    offs[None]		= reqd	= octets(	'requests',	context='multiple',\n                                                octets_extension=\".request_data\",\n                                                terminal=True )\n    reqd[True]			= reqd\n    reqd[None]			= state_multiple_service( 'requests',\n                                                terminal=True )\n    return srvc\nMessage_Router.register_service_parser( number=Message_Router.MULTIPLE_REQ", fires=[ 'G-PROGRESS' ] ),
+    # ---- layout rules
+    V( 'type-int-big-endian', PARSER, "tag_type = 0x00c3\n struct_format = '<h'", "tag_type			= 0x00c3\n    struct_format		= '>h'", fires=[ 'T-TYPES' ] ),
+    V( 'type-uint-signed', PARSER, "tag_type = 0x00c7\n struct_format = '<H'", "tag_type			= 0x00c7\n    struct_format		= '<h'", fires=[ 'T-TYPES' ] ),
+    V( 'typed-data-dispatch-cross', PARSER, "slct[None] = decide( 'UINT', state=u16d,", "slct[None]		= decide(	'UINT',	state=i16d,", fires=[ 'T-TYPES' ] ),
+    V( 'produce-fields-swapped', LOGIX, "result += UINT.produce( data.read_frag.elements )\n result += UDINT.produce( data.read_frag.offset )", "result	       += UDINT.produce(	data.read_frag.offset )\n            result	       += UINT.produce(		data.read_frag.elements )", fires=[ 'L-AGREE' ] ),
+    V( 'produce-elements-udint', LOGIX, "result += UINT.produce( data.read_tag.elements )", "result	       += UDINT.produce(		data.read_tag.elements )", fires=[ 'L-AGREE' ] ),
+    V( 'produce-reserved-byte-dropped', LOGIX, "elif data.get( 'service' ) == cls.RD_TAG_RPY:\n result += USINT.produce( data.service )\n result += b'\\x00' # reserved", "elif data.get( 'service' ) == cls.RD_TAG_RPY:\n            result	       += USINT.produce(	data.service )", fires=[ 'L-AGREE' ] ),
+    V( 'parser-forward-open-serial-order', DEVICE, "toid[True] = cser = UINT( context='forward_open', extension='.connection_serial' )\n cser[True] = ovnd = UINT( context='forward_open', extension='.O_vendor' )\n ovnd[True] = oser = UDINT( context='forward_open', extension='.O_serial' )\n oser[True] = otapi",
+       "toid[True]		= cser	= UINT(			context='forward_open', extension='.O_vendor' )\n    cser[True]		= ovnd	= UINT(			context='forward_open', extension='.connection_serial' )\n    ovnd[True]		= oser	= UDINT(		context='forward_open', extension='.O_serial' )\n    oser[True]		= otapi", fires=[ 'L-AGREE', 'L-SPEC' ] ),
+    V( 'produce-status-guard-constants', LOGIX, "elif data.get( 'service' ) == cls.RD_FRG_RPY:\n result += USINT.produce( data.service )\n result += b'\\x00' # reserved\n result += status.produce( data )\n if data.status in (0x00, 0x06):", "elif data.get( 'service' ) == cls.RD_FRG_RPY:\n            result	       += USINT.produce(	data.service )\n            result	       += b'\\x00' # reserved\n            result	       += status.produce(	data )\n            if data.status in (0x00, 0x1E):", fires=[ 'L-AGREE' ] ),
+    V( 'produce-alias-local', LOGIX, "result += UINT.produce( data.read_tag.elements )", "rt = data.read_tag\n            result	       += UINT.produce(		rt.elements )", silent=[ 'L-AGREE', 'L-SPEC' ] ),
+    V( 'segments-16bit-opcode-plus-2', PARSER, "result += USINT.produce( segtyp + 1 )", "result     += USINT.produce( segtyp + 2 )", fires=[ 'T-SEGMENTS' ] ),
+    V( 'segments-16bit-drop-1', PARSER, "pseg[b'\\x25'[0]]= i16t = octets_drop( 'type', repeat=2 )", "pseg[b'\\x25'[0]]= i16t	= octets_drop(	'type',		repeat=1 )", fires=[ 'T-SEGMENTS' ] ),
+    V( 'segments-symbolic-pad-dropped', PARSER, "result += encoded\n if seglen % 2:\n result += USINT.produce( 0 )\n break", "result     += encoded\n                    break", fires=[ 'T-SEGMENTS' ] ),
+    V( 'segments-size-bytes', PARSER, "return USINT.produce( len( result ) // 2 ) +", "return USINT.produce( len( result )) +", fires=[ 'T-SEGMENTS' ] ),
+    V( 'ncp-shift-12', DEFAULTS, "+ (( 2 if type is None else type ) << 13 )", "+ (( 2 if type      is None else type      ) << 12 )", fires=[ 'T-NCP' ] ),
+    V( 'offsets-2N', DEVICE, "result += UINT.produce( 2 + 2 * len( offsets ) + o )\n result += reqdata", "result	       += UINT.produce( 	2 * len( offsets ) + o )\n            result	       += reqdata", fires=[ 'A-OFFSETS' ] ),
+    V( 'offsets-reordered-sum', DEVICE, "result += UINT.produce( 2 + 2 * len( offsets ) + o )\n result += reqdata", "result	       += UINT.produce( 	o + len( offsets ) * 2 + 2 )\n            result	       += reqdata", silent=[ 'A-OFFSETS' ] ),
+    V( 'order-reversed-dropped', DEVICE, "for r in reversed( data.multiple.request ):\n req = cls.produce( r )", "for r in data.multiple.request:\n                req		= cls.produce( r )", fires=[ 'P-ORDER' ] ),
+    V( 'each-conditional-dispatch', DEVICE, "target.request( r, addr=addr )\n data.status = 0x00", "if r.get( 'service' ): target.request( r, addr=addr )\n                data.status	= 0x00", fires=[ 'P-EACH' ] ),
+    V( 'closure-run-and-posted', DEVICE, "target.parser.post_process_closure( closure )\n else:\n closure()", "target.parser.post_process_closure( closure )\n        closure()", fires=[ 'P-CLOSURE' ] ),
+    V( 'forwards-key-without-port', DEVICE, "unique = addr[0],addr[1],fo.O_T.connection_ID", "unique			= addr[0],fo.O_T.connection_ID", fires=[ 'K-FORWARDS' ] ),
+    V( 'forwards-key-T_O', DEVICE, "unique = addr[0],addr[1],fo.O_T.connection_ID", "unique			= addr[0],addr[1],fo.T_O.connection_ID", fires=[ 'K-FORWARDS' ] ),
+    # ---- framework shape rules
+    V( 'sent-push-no-decrement', AUTO, "self._back.append( item )\n self._sent -= 1", "self._back.append( item )", fires=[ 'R-SENT' ] ),
+    V( 'sent-chained-no-increment', AUTO, "except StopIteration:\n continue\n else:\n self._sent += 1\n return result", "except StopIteration:\n                    continue\n                return result", fires=[ 'R-SENT' ] ),
+    V( 'limit-ending-unconditional', AUTO, "if ending is None or source.sent + limit < ending:\n ending = source.sent + limit", "if True:\n                    ending	= source.sent + limit", fires=[ 'R-LIMIT' ] ),
+    V( 'limit-grows', AUTO, "if ending is None or source.sent + limit < ending:", "if ending is None or source.sent + limit > ending:", fires=[ 'R-LIMIT' ] ),
+    V( 'limit-off-by-one', AUTO, "limited = ending is not None and source.sent >= ending", "limited			= ending is not None and source.sent > ending", fires=[ 'R-LIMIT' ] ),
+    V( 'limit-not-forwarded', AUTO, "source=source, machine=self, path=self.context( path ), data=data, ending=ending )", "source=source, machine=self, path=self.context( path ), data=data )", fires=[ 'R-LIMIT' ] ),
+    V( 'limit-min-idiom', AUTO, "if ending is None or source.sent + limit < ending:\n ending = source.sent + limit", "if ending is None or source.sent + limit <= ending:\n                    ending	= source.sent + limit", silent=[ 'R-LIMIT' ] ),
+    V( 'repeat-double-increment', AUTO, "self.cycle += 1 # On last cycle, sub-machine may be terminated at any terminal state", "self.cycle	       += 1\n            self.cycle	       += 1", fires=[ 'R-REPEAT' ] ),
+    V( 'progress-accept-guard-deleted', AUTO, "assert crumb not in seen, \\\n \"%s detected no progress before finding acceptable symbol\" % ( self )", "pass", fires=[ 'R-PROGRESS' ] ),
+    V( 'progress-nonterminal-raise-deleted', AUTO, "if not self.current.terminal:\n raise NonTerminal(", "if False:\n                raise NonTerminal(", fires=[ 'R-PROGRESS' ] ),
+    # ---- lock rules
+    V( 'lock-run-without-with', LOGIX, "with ucmm.parser as machine:\n with contextlib.closing( machine.run( source=source, data=data.request.enip )) as engine:\n for m,s in engine:\n pass", "if True:\n                with contextlib.closing( ucmm.parser.run( source=source, data=data.request.enip )) as engine:\n                    for m,s in engine:\n                        pass", fires=[ 'R-LOCK-1' ] ),
+    V( 'lock-with-alias', LOGIX, "with ucmm.parser as machine:", "with ucmm.parser as machine:  ", silent=[ 'R-LOCK-1' ] ),
+    V( 'lock-sessions-pop-outside', UCMM, "with self.lock:\n session = self.__class__.sessions.pop( addr, None )", "if True:\n                    session	= self.__class__.sessions.pop( addr, None )", fires=[ 'R-LOCK-3' ] ),
+    V( 'lock-setup-tag-dedented', LOGIX, "key, key_utf8, key_bytes, key_8859 ))\n setup_tag( key_8859, val )\n\n return setup.ucmm", "key, key_utf8, key_bytes, key_8859 ))\n    setup_tag( key_8859, val )\n\n    return setup.ucmm", fires=[ 'R-LOCK-4' ] ),
+    V( 'lock-post-keyed-by-id', AUTO, "self.post.setdefault( threading.current_thread().ident, [] ).append( closure )", "self.post.setdefault( id( self ), [] ).append( closure )", fires=[ 'R-LOCK-5' ] ),
+    V( 'lock-closure-invoked-under-lock', AUTO, "closure = post_list.pop( 0 )\n # Lock released, got a closure; it may (internally) re-acquire Lock, if necessary.\n try:\n log.info( \"%s -- post-processing %s\",\n self.name_centered(), misc.function_name( closure ))\n closure()", "closure	= post_list.pop( 0 )\n                    closure()\n                try:\n                    log.info( \"%s -- post-processing %s\",\n                              self.name_centered(), misc.function_name( closure ))", fires=[ 'R-LOCK-5' ] ),
+    # ---- client rules
+    V( 'complete-pipeline-assert-deleted', CLIENT, "assert complete == requests, \\\n \"Communication ceased before harvesting all pipeline responses: %3d/%3d\" % (\n complete, requests )", "pass", fires=[ 'S-COMPLETE' ] ),
+    V( 'match-service-compare-dropped', CLIENT, "assert rpy_ctx == req_ctx and rpy.service == req.service | 0x80, \\", "assert rpy_ctx == req_ctx, \\", fires=[ 'P-MATCH' ] ),
+    V( 'discard-enip-status-ignored', CLIENT, "elif response.enip.status != 0:\n raise ENIPStatusError( status=response.enip.status )", "elif response.enip.status != 0 and False:\n        raise ENIPStatusError( status=response.enip.status )", fires=[ 'P-DISCARD' ] ),
+    V( 'gateway-poll-without-with', POLL, "with via: # ensure via.close_gateway invoked on any Exception\n with contextlib.closing( execute( via, **kwds )) as executor:\n # PyPy compatibility; avoid deferred destruction of generators\n results = list( executor )", "if True:\n        with contextlib.closing( execute( via, **kwds )) as executor:\n            results		= list( executor )", fires=[ 'P-GATEWAY' ] ),
+    V( 'gateway-exit-ignores-exception', GETATTR, "if typ is not None:\n self.close_gateway( exc=val )", "if typ is KeyboardInterrupt:\n            self.close_gateway( exc=val )", fires=[ 'P-GATEWAY' ] ),
+    V( 'bundle-send-path-ignored', CLIENT, "and requests_paths.setdefault( 'send_path', op.get( 'send_path' )) == op.get( 'send_path' )):", "):", fires=[ 'P-BUNDLE' ] ),
+    V( 'client-types-int-size', CLIENT, "'INT': (parser.INT.tag_type, parser.INT.struct_calcsize,", "'INT':	(parser.INT.tag_type,	parser.DINT.struct_calcsize,", fires=[ 'T-CLIENT-TYPES' ] ),
+    # ---- route rules
+    V( 'route-or-to-and', UCMM, "or route_path == self.route_path # Or they match", "and route_path == self.route_path", fires=[ 'B-ROUTE' ] ),
+    V( 'route-eq-to-ne', UCMM, "or route_path == self.route_path # Or they match", "or route_path != self.route_path", fires=[ 'B-ROUTE' ] ),
+    V( 'route-no-empty-accept', UCMM, "assert ( not route_path # Request has no route_path (Simple Request); its to some Object known to this simulator\n or ( not self.route_path", "assert ( route_path is None\n                                     or ( not self.route_path", fires=[ 'B-ROUTE' ] ),
+    V( 'route-demorgan', UCMM, "or route_path == self.route_path # Or they match", "or not ( route_path != self.route_path )", silent=[ 'B-ROUTE', 'D-REFUSE' ] ),
+    V( 'route-check-after-dispatch', UCMM, "CM.request( unc_send, addr=addr )\n\n # After successful processing", "CM.request( unc_send, addr=addr )\n                        CM.request( unc_send, addr=addr ) if False else None\n\n                    # After successful processing", silent=[ 'B-ROUTE' ] ),
+    V( 'main-simple-none', MAIN, "route_path = device.parse_route_path( args.route_path ) if args.route_path else False", "route_path		= device.parse_route_path( args.route_path ) if args.route_path else None", fires=[ 'C-MAIN' ] ),
+    # ---- library tables
+    V( 'reserved-pop-removed', DOT, "'pop', 'popitem', 'setdefault', 'update',\n '_resolve',", "'popitem', 'setdefault', 'update',\n        '_resolve',", fires=[ 'T-RESERVED' ] ),
+    V( 'reserved-guard-dropped', DOT, "if mine in self.__invalid_keys__ or mine.startswith( '__' ):", "if mine.startswith( '__' ):", fires=[ 'T-RESERVED' ] ),
+    V( 'contains-bypasses-getitem', DOT, "try:\n self.__getitem__( key )\n return True\n except KeyError:\n return False", "return dict.__contains__( self, key )", fires=[ 'D-DELEGATE' ] ),
+    V( 'cmp-le-raw', TIMES, "def __le__( self, rhs ):\n return not self.__gt__( rhs )", "def __le__( self, rhs ):\n        return self.value <= rhs.value", fires=[ 'T-CMP' ] ),
+    V( 'cmp-epsilon-literal', TIMES, "_epsilon = 10**-_precision", "_epsilon			= 0.01", fires=[ 'T-CMP' ] ),
+    V( 'duration-week-as-day', TIMES, "+ cls.WK * int( durmatch.group( 'w' ) or '0' )", "+ cls.WK * int( durmatch.group( 'd' ) or '0' )", fires=[ 'T-DURATION' ] ),
+    V( 'duration-hours-from-days', TIMES, "hours = d_secs // cls.HR", "hours			= w_secs // cls.HR", fires=[ 'T-DURATION' ] ),
+    V( 'record-split-once', HFILES, "dt,sn,js = l.split( '\\t', 2 )", "dt,sn,js			= l.split( '\\t' )", fires=[ 'T-RECORD' ] ),
+    V( 'record-no-newline', HFILES, "json.dumps( data ))) + '\\n',", "json.dumps( data ))),", fires=[ 'T-RECORD' ] ),
+    V( 'states-name-missing', HFILES, "AWAITING: \"AWAITING\",", "", fires=[ 'X-STATES' ] ),
+    V( 'states-bool-le', HFILES, "return self.state < self.COMPLETE", "return self.state <= self.COMPLETE", fires=[ 'X-STATES' ] ),
+    V( 'extent-recomputed', MODBUS, "length = max( length, address + count - base )", "length	= address + count - base", fires=[ 'M-EXTENT' ] ),
+    V( 'extent-guarded-form', MODBUS, "length = max( length, address + count - base )", "if address + count - base > length: length = address + count - base", silent=[ 'M-EXTENT' ] ),
+    V( 'tile-advance-by-limit', MODBUS, "address += taken", "address	       += limit", fires=[ 'M-TILE' ] ),
+    V( 'bank-test-dropped', MODBUS, "if ( address // 10000 == base // 10000\n and address < base + length + ( reach or 1 )):", "if ( address < base + length + ( reach or 1 )):", fires=[ 'M-BANK' ] ),
+    V( 'tnet-bool-decoder', TNETS, "value = payload == b'true'", "value = payload == b'True'", fires=[ 'T-TNET' ] ),
+    V( 'tnet-unknown-tag', TNETS, "typ = b'^'", "typ = b'%'", fires=[ 'T-TNET' ] ),
+    V( 'tnet-isinstance-int-first', TNETS, "if type(data) in ((int,long) if sys.version_info[0] < 3 else (int,)): # noqa: F821", "if isinstance( data, int ):", fires=[ 'T-TNET' ] ),
+    V( 'econtain-close-removed', MAIN, "except:\n pass\n conn.close()", "except:\n                pass", fires=[ 'E-CONTAIN' ] ),
+    V( 'econtain-runner-narrow-except', NETWORK, "return super( server_runner, self ).run()\n except Exception as exc:", "return super( server_runner, self ).run()\n        except AssertionError as exc:", fires=[ 'E-CONTAIN' ] ),
+]
+
+
+def _pattern( old ):
+    # a space in `old` stands for any run of blanks/tabs (also none); '\n ' for a newline followed by any indentation
+    esc = re.escape( old )
+    esc = esc.replace( '\\\n\\ ', '[ \\t]*\\n[ \\t]*' ).replace( '\\\n', '[ \\t]*\\n[ \\t]*' ).replace( '\\ ', '[ \\t]*' )
+    return re.compile( esc )
+
+
+def apply_variant( v, root ):
+    """-> ( new text, None ) or ( None, reason )"""
+    path = os.path.join( root, v['file'] )
+    if not os.path.exists( path ):
+        return None, 'file absent'
+    text = open( path, encoding='utf-8', errors='replace' ).read()
+    pat = _pattern( v['old'] )
+    hits = pat.findall( text )
+    if len( hits ) != 1:
+        return None, 'anchor matched %d times' % len( hits )
+    new = pat.sub( lambda m: v['new'], text, count=1 )
+    try:
+        compile( new, v['file'], 'exec' )
+    except SyntaxError as exc:
+        return None, 'variant does not compile: %s' % exc
+    return new, None
+
+
+def run_variant( args ):
+    v, root = args
+    from . import cli
+    cli.load_rules()
+    new, why = apply_variant( v, root )
+    if new is None:
+        return dict( id=v['id'], status='skipped', why=why )
+    rules = list( v['fires'] ) + list( v['silent'] )
+    ctx = Ctx( root, 'quick', overrides={ v['file']: new } )
+    results, errors = cli.run_rules( ctx, rules )
+    known, _ = cli.load_known()
+    out = dict( id=v['id'], kind='breaking' if v['fires'] else 'preserving', rules=rules, errors=errors[:3] )
+    fired = { rid: [ f for f in res.findings if f.key not in known ] for rid, res in results.items() }
+    if v['fires']:
+        hit = [ rid for rid in v['fires'] if fired.get( rid ) ]
+        out['fired'] = hit
+        out['sample'] = ( fired[hit[0]][0].human().strip()[:200] if hit else '' )
+        out['status'] = 'ok' if hit else ( 'undecided' if errors else 'MISS' )
+    else:
+        noisy = [ rid for rid in v['silent'] if fired.get( rid ) ]
+        out['fired'] = noisy
+        out['sample'] = ( fired[noisy[0]][0].human().strip()[:200] if noisy else '' )
+        out['status'] = 'FALSE-ALARM' if noisy else ( 'undecided' if errors else 'ok' )
+    return out
+
+
+def variants_for( prop=None ):
+    if prop is None:
+        return VARIANTS
+    out = []
+    for v in VARIANTS:
+        rules = list( v['fires'] ) + list( v['silent'] )
+        if any( prop in RULES[r]['props'] or r in _prop_rules( prop ) for r in rules if r in RULES ):
+            out.append( v )
+    return out
+
+
+def _prop_rules( prop ):
+    from . import props
+    spec = props.PROPS.get( prop, {} )
+    return set( spec.get( 'rules', () )) | set( spec.get( 'thorough_rules', () ))
+
+
+def run_for_property( prop, root=None, jobs=None ):
+    from . import cli
+    cli.load_rules()
+    root = root or core.REPO
+    vs = [ v for v in VARIANTS if any( r in _prop_rules( prop ) for r in list( v['fires'] ) + list( v['silent'] )) ]
+    # only the rules of this property are required to react
+    vs2 = []
+    for v in vs:
+        f = tuple( r for r in v['fires'] if r in _prop_rules( prop ))
+        s = tuple( r for r in v['silent'] if r in _prop_rules( prop ))
+        if f or s:
+            vs2.append( dict( v, fires=f, silent=s ))
+    jobs = jobs or min( 16, os.cpu_count() or 4 )
+    t0 = time.time()
+    if len( vs2 ) > 2 and jobs > 1:
+        with ProcessPoolExecutor( max_workers=jobs ) as ex:
+            outs = list( ex.map( run_variant, [ ( v, root ) for v in vs2 ] ))
+    else:
+        outs = [ run_variant(( v, root )) for v in vs2 ]
+    misses = [ '%s: %s %s %s' % ( o['id'], o['status'], o.get( 'fired' ), o.get( 'errors' )) for o in outs if o['status'] in ( 'MISS', 'FALSE-ALARM', 'undecided' ) ]
+    return dict( variants=len( outs ), breaking_fired=sum( 1 for o in outs if o.get( 'kind' ) == 'breaking' and o['status'] == 'ok' ),
+                 preserving_silent=sum( 1 for o in outs if o.get( 'kind' ) == 'preserving' and o['status'] == 'ok' ),
+                 skipped=sum( 1 for o in outs if o['status'] == 'skipped' ), wall_s=round( time.time() - t0, 2 ),
+                 results=[ { k: o.get( k ) for k in ( 'id', 'kind', 'status', 'fired', 'sample', 'why' ) } for o in outs ],
+                 misses=misses )
+
+
 def main( prop=None, jobs=16, verbose=False ):
-    return 0
+    from . import cli
+    cli.load_rules()
+    vs = VARIANTS
+    with ProcessPoolExecutor( max_workers=jobs ) as ex:
+        outs = list( ex.map( run_variant, [ ( v, core.REPO ) for v in vs ] ))
+    bad = 0
+    for o in outs:
+        if verbose or o['status'] != 'ok':
+            print( '%-44s %-12s %s %s %s' % ( o['id'], o['status'], o.get( 'fired', '' ), o.get( 'why', '' ) or o.get( 'errors', '' ) or '', o.get( 'sample', '' )[:120] ))
+        if o['status'] in ( 'MISS', 'FALSE-ALARM', 'undecided' ):
+            bad += 1
+    print( 'variants %d ok %d skipped %d bad %d' % ( len( outs ), sum( 1 for o in outs if o['status'] == 'ok' ), sum( 1 for o in outs if o['status'] == 'skipped' ), bad ))
+    return 2 if bad else 0
